@@ -21,7 +21,9 @@ from harness.common.isolated import run_many
 
 PID = "C05"
 LEVEL = "proof"
+EXTRA_PROP_FILES = ["C01Nine"]  # the 9-point Laplacian: corner-point setter and conservation
 REQUIRED_THEOREMS = [
+    "stencil9_integral_zero", "cartLaplace9_integral_zero_neumann", "cartLaplace9_integral_zero_periodic_y", "cartLaplace9_integral_zero_periodic_x",
     "sumTo_telescope", "cart1_laplace_sum", "cart1_laplace_integral_zero_neumann", "cart1_laplace_integral_zero_periodic",
     "cart2_laplace_sum", "cart2_laplace_integral_zero_neumann", "cart2_laplace_integral_zero_periodic",
     "polar_laplace_flux_form", "polar_laplace_sum", "polar_laplace_integral_zero",
